@@ -1,26 +1,19 @@
-"""Per-property configuration of bin/check."""
+"""Per-property configuration of bin/check: one JSON file per claimed property under props/."""
+import json, os, glob
+VERIF = os.path.dirname(os.path.dirname(os.path.abspath(__file__)))
 
 COMMON_ASSUME = [
-    "the theorems are about the Lean model; the model is tied to /repo by the correspondence lanes and regenerated facts listed here",
+    "the theorems are about the Lean model; the model is tied to /repo by the correspondence lanes and regenerated facts listed in the evidence",
 ]
 
-PROPS = {
-    "C16": {
-        "lean_props": ["Req.Props.C16"],
-        "bridge": [],
-        "lanes": [
-            {"pkg": ".", "run": "^TestVerif_C16_"},
-        ],
-        "trusted_base": [
-            "modelled, not verified: Go map iteration order (explicit permutation), HPACK/QPACK encoders (decoded by the reference decoders in the wire lane)",
-        ],
-        "assumptions": COMMON_ASSUME,
-        "level_text": "Theorems sort_perm and sort_listed_ordered hold for header lists of every length (induction over the insertion sort with the positional comparator); the model is tied to internal/header/sort.go by a differential lane.",
-        "level_note": "Trusted: Lean kernel, the correspondence harness and its generators. Modelled not verified: map iteration order, HPACK/QPACK.",
-    },
-}
+PROPS = {}
+for f in sorted(glob.glob(os.path.join(VERIF, "props", "C*.json"))):
+    c = json.load(open(f))
+    c.setdefault("assumptions", [])
+    c["assumptions"] = COMMON_ASSUME + c["assumptions"]
+    PROPS[os.path.basename(f)[:-5]] = c
 
-# properties not (yet) claimed, each with the reason
-NOT_APPLICABLE = {p: "check not built yet in this round (planned per DESIGN.md section 8)" for p in
-                  ["C%02d" % i for i in range(1, 21)]}
-
+_na = os.path.join(VERIF, "props", "not_applicable.json")
+NOT_APPLICABLE = json.load(open(_na)) if os.path.exists(_na) else {}
+for i in range(1, 21):
+    NOT_APPLICABLE.setdefault("C%02d" % i, "check not built yet (planned per DESIGN.md section 8)")
